@@ -18,11 +18,10 @@ func kernelPlan(prop, tier string) []*eng.KernelSpec {
 	case "C16":
 		type shape struct{ d, rd string }
 		shapes := []shape{{"1", "0"}, {"2", "1"}}
-		if tier == "thorough" {
-			// complete depth-3 trees exhausted memory (> 60 GB); depth 3 is explored
-			// with right operands limited to depth 1
-			shapes = append(shapes, shape{"3", "1"})
-		}
+		// depth 3 is out of reach: complete depth-3 trees, and also depth-3 trees whose
+		// right operands are limited to depth 1 or to leaves, exhausted memory in the
+		// executor (> 23 GB before the first query); both tiers therefore run depths 1-2.
+		_ = tier
 		for _, sh := range shapes {
 			d := sh.d
 			var dn int
